@@ -5,9 +5,9 @@ CONSTANTS
   CS = 2
   NGets = 2
   Ranges <- AllRanges
-  Plays <- PlayMix
-  Forces <- ForceMix
-  MaxInv = 2
+  Plays <- NoPlay
+  Forces <- NoForce
+  MaxInv = 1
   MaxTrim = 1
   MaxFail = 1
   Age <- AllOld
